@@ -222,17 +222,17 @@ fn repo_frame_from_backtrace() -> Option<String> {
 /// Install a silent panic hook that records message and location per thread.
 pub fn install_panic_hook() {
     std::panic::set_hook(Box::new(|info| {
-        let mut loc = match info.location() {
+        let loc = match info.location() {
             Some(l) => format!("{}:{}", normalise_path(l.file()), l.line()),
             None => "unknown".to_string(),
         };
         let mut via = String::new();
         if !loc.starts_with("src/") {
-            // Panic raised inside std (e.g. "capacity overflow"): name the
-            // innermost frame of the crate under test instead.
+            // Panic raised inside std (e.g. "capacity overflow"): the signature
+            // keeps the panic's own location (stable), the detail also names the
+            // innermost frame of the crate under test (inlining-dependent).
             if let Some(inner) = repo_frame_from_backtrace() {
-                via = format!(" (raised in {})", loc);
-                loc = inner;
+                via = format!(" (reached from {})", inner);
             }
         }
         let msg = if let Some(s) = info.payload().downcast_ref::<&str>() {
